@@ -13,7 +13,7 @@ import valgen
 import xv
 from xv import log
 
-CORPUS_VERSION = "15"
+CORPUS_VERSION = "16"
 
 BOUNDARY = [0, 1, 2, 3, 0xffff, 0x10000, 0x7fffffff, 0x80000000, 0xfffffffe, 0xffffffff]
 
@@ -399,6 +399,23 @@ def build(tier, seed):
         allcases += cs
     allcases += special_cases(obs, types, failed_idx, rng)
     lines = xv.run_runner(exe, ["%d %s %d %s" % (c["spec"], c["type"], c["off"], c["input"].hex()) for c in allcases])
+    # metamorphic context: every hostile input the decoder ACCEPTS is decoded again at another
+    # offset of a larger allocation and with other bytes behind it (C03: the result may depend
+    # on neither) -- the well-formed encodings have their own valid_ctx twin
+    crng = random.Random(seed * 17 + 3)
+    acc = [n for n, (c, l) in enumerate(zip(allcases, lines))
+           if c["kind"] not in ("valid", "valid_ctx", "valid_big", "prefix") and l.startswith("REF OK") and len(c["input"]) <= 4096]
+    if len(acc) > (4000 if tier == "quick" else 60000):
+        acc = sorted(crng.sample(acc, 4000 if tier == "quick" else 60000))
+    twins = []
+    for n in acc:
+        c = allcases[n]
+        sfx = bytes(crng.getrandbits(8) for _ in range(crng.choice([1, 3, 4, 9])))
+        twins.append({"spec": c["spec"], "type": c["type"], "off": crng.choice([1, 2, 7, 12]), "input": c["input"] + sfx,
+                      "kind": "ctx2", "base": n})
+    if twins:
+        lines += xv.run_runner(exe, ["%d %s %d %s" % (c["spec"], c["type"], c["off"], c["input"].hex()) for c in twins])
+        allcases += twins
     for c, l in zip(allcases, lines):
         if len(l) > 60000 and c["kind"] != "valid_big":
             c["huge"] = len(l)
